@@ -9,6 +9,7 @@
 #include <stdlib.h>
 #include <string.h>
 #include <unistd.h>
+#include "watchdog.h"
 static int hexv(int c) { return c <= '9' ? c - '0' : (c | 32) - 'a' + 10; }
 int main(void)
 {
